@@ -300,6 +300,10 @@ def _gen_case(rp, rf, rk, tier, flavour):
             "kw_pad": rk.random() < 0.15, "facts_mid": (rk.randrange(len(specs)) if flavour == "C09" and rk.random() < 0.2 else None),
             "marker_mode": marker_mode, "regime": "collision" if collision else ("k6" if k6 else "base"),
             "suffix_pair": suffix_pair, "prefix_pair": prefix_pair, "mac_twins": mac_twins, "_pool": pool}
+    if rk.random() < 0.2:
+        # another Cleaner, for another system, is built (and used once) in the middle of the history: cleaners of one
+        # process are independent objects
+        case["interloper"] = {"after": rk.randrange(len(specs)), "fqdn": rk.choice(["node7.lab.example.org", "mx.other-corp.lan", "standalone"])}
     if flavour == "C10" and rk.random() < 0.12:
         # the tuning knob MAX_LINE_LENGTH (1 MiB as shipped) turned down, so that lines are actually cut
         case["max_line"] = rk.choice([12, 20, 40, 80])
@@ -447,6 +451,12 @@ def run_history(case, facts_dir=None, serial=False):
         out, raised = clean_spec(si, spec)
         r.outputs.append(out)
         r.raised.append(raised)
+        il = case.get("interloper")
+        if il and il["after"] == si:
+            try:
+                Cleaner(cfg, rm_conf_of(case), fqdn=il["fqdn"]).clean_content(["interloper 192.0.2.77 on " + il["fqdn"]])
+            except Exception:
+                pass
         if raised is None and facts_dir and case.get("facts_mid") == si:
             try:
                 c.generate_rhsm_facts()              # a report in the middle of the run must not disturb anything
